@@ -65,6 +65,11 @@ func c01Cases(tier string, seed uint64, flavor string) []lib.Case {
 		}
 		cases = append(cases, lib.Case{Seed: s.PairSeed, Kind: "pair", Spec: lib.MustSpec(s)})
 	}
+	// a completely empty directory on either side (or both)
+	for k, o := range []lib.GenOpts{{EmptyOld: true}, {EmptyNew: true}, {EmptyOld: true, EmptyNew: true}} {
+		s := c01Spec{PairSeed: lib.Mix(seed, 1001, uint64(k)), Opts: o, Comps: []lib.Comp{comps[0], comps[len(comps)/2], comps[len(comps)-1]}}
+		cases = append(cases, lib.Case{Seed: s.PairSeed, Kind: "empty-side", Spec: lib.MustSpec(s)})
+	}
 	return cases
 }
 
